@@ -177,6 +177,25 @@ while true do
   pcall(string.gsub, ("x"):rep(200), "x", function(c) $WORK; return c end)
   emit("gsub done")
 end`},
+	// the body itself ends; the finalisers of the values it created run when the context is
+	// left and need far more than any limit of the ladder (a bounded loop, so that a broken
+	// tree ends with the wrong status instead of hanging)
+	{"finaliser-after-error-exit", closers + `
+setmetatable({}, {__gc = function() emit("finaliser") for i = 1, 6000000 do $WORK end emit("finaliser finished") end})
+emit("body")
+error("boom")`},
+	{"finaliser-after-error-value-exit", closers + `
+local keep = setmetatable({}, {__gc = function() emit("finaliser") for i = 1, 6000000 do $WORK end emit("finaliser finished") end})
+emit("body")
+error(setmetatable({}, {__tostring = function() return "x" end}))`},
+	{"finaliser-after-return", closers + `
+setmetatable({}, {__gc = function() emit("finaliser") for i = 1, 6000000 do $WORK end emit("finaliser finished") end})
+emit("body")
+return 1`},
+	{"finaliser-after-close-handler-error", closers + `
+setmetatable({}, {__gc = function() emit("finaliser") for i = 1, 6000000 do $WORK end emit("finaliser finished") end})
+local c <close> = setmetatable({}, {__close = function() error("from close") end})
+emit("body")`},
 }
 
 // Amplifiers are library calls whose work or allocation depends on a size
@@ -233,6 +252,25 @@ var Amplifiers = []struct{ Name, Src string }{
 	{"unpack-many-strings", `local n = math.min($N, 100000) local p = string.pack("s4", ("x"):rep(1000)) return select("#", string.unpack(("s4"):rep(math.min(n, 200)), p:rep(math.min(n, 200))))`},
 	{"utf8.char-many", `local t = {} for i = 1, math.min($N, 200) do t[i] = 0x10FFFF end local s = utf8.char(table.unpack(t)) return #s:rep(math.min($N, 100000))`},
 	{"tostring-table-keys", `local t = {} for i = 1, math.min($N, 2000000) do t["k" .. i] = i end return 1`},
+	// live data held across child contexts while memory charged to the enclosing context
+	// (a coroutine's stack, the frames of a suspended coroutine) is released inside them;
+	// they return the number of bytes still held
+	{"holds-strings-while-coroutines-end-in-pcall", `local keep = {} local n = math.min($N, 12000) for i = 1, n do keep[i] = false end
+local function nop() end
+for i = 1, n do local co = coroutine.create(nop) pcall(function() keep[i] = ("x"):rep(1500) coroutine.resume(co) end) end
+local live = 0 for i = 1, n do live = live + #(keep[i] or "") end return live`},
+	{"holds-strings-while-frames-return-in-pcall", `local keep, nkept = {}, 0 local rounds = math.min($N, 150) for i = 1, rounds * 30 do keep[i] = false end
+function keepstring() nkept = nkept + 1 keep[nkept] = ("x"):rep(4000) end
+local names = {} for i = 1, 200 do names[i] = "a" .. i end
+local fat = load("local function fat(n) local " .. table.concat(names, ",") .. " if n > 1 then fat(n - 1) end coroutine.yield() keepstring() end return fat")()
+for r = 1, rounds do local co = coroutine.wrap(fat) co(30) for i = 1, 30 do pcall(co) end end
+local live = 0 for i = 1, nkept do live = live + #(keep[i] or "") end return live`},
+	{"holds-strings-while-coroutines-end-in-xpcall-and-callcontext", `local keep = {} local n = math.min($N, 12000) for i = 1, n do keep[i] = false end
+local function nop() end
+for i = 1, n do local co = coroutine.create(nop)
+  if i % 2 == 0 then xpcall(function() keep[i] = ("x"):rep(1500) coroutine.resume(co) end, print)
+  else runtime.callcontext({}, function() keep[i] = ("x"):rep(1500) coroutine.resume(co) end) end end
+local live = 0 for i = 1, n do live = live + #(keep[i] or "") end return live`},
 	{"string.byte-to-table", `local s = ("x"):rep(math.min($N, 200)) local t = {} for i = 1, math.min($N, 100000) do t[i] = {s:byte(1, -1)} end return #t`},
 }
 
